@@ -1,7 +1,7 @@
 """Check flow for node-level properties: pointwise differential of the Raft/RawNode
 model against RawNode<SimStorage> on simulated cluster runs, compared per
 projection (sections of the state dump / message classes)."""
-import collections, hashlib, json, os, random, shutil, subprocess, time
+import collections, hashlib, json, os, random, shutil, subprocess, sys, time
 from . import common as C
 
 BASE = 1 << 64
@@ -211,6 +211,13 @@ def check(spec, tier, seed, replay=None):
                 d0 = mine[0]
                 broken.append("correspondence: model M/Raft.v+RawNode.v and implementation disagree on %d of %d calls in this property's projection %s; first: %s differs in %s"
                               % (len(mine), summ["cases"], sorted(proj), d0["meta"], d0["keys"]))
+            if spec.get("site_inventory"):
+                # structural tie: the syntactic panic sites of the modelled sources are the committed inventory
+                rc_i, out_i = C.run([sys.executable, os.path.join(C.ROOT, "tools", "site_inventory.py")])
+                if rc_i != 0:
+                    diffs = [l for l in out_i.splitlines() if l.split(" ", 1)[0] in ("ADDED", "REMOVED", "CHANGED")]
+                    broken.append("structure: the panic sites of the modelled sources differ from site_inventory.json (%d differences): %s"
+                                  % (len(diffs), "; ".join(diffs[:6])))
             accname = spec.get("acceptor")
             if accname:
                 a = summ.get("acceptors", {}).get(accname, {"traces": 0, "events": 0, "rejects": []})
@@ -367,6 +374,12 @@ def run_monitor(spec, tier, seed, escalate):
             if f2 and sig_match(kf["signature"], f2["reason"]):
                 seen = 1
                 how = "reproduced by its recorded replay " + " ".join(fix_replay_args(kf["replay"]))
+        if not seen and kf.get("scenario"):
+            # deterministic scripted reproduction (harness/src/findings.rs)
+            rc3, out3 = C.run([C.VH, "finding", kf["scenario"]], timeout=600)
+            if out3.strip().startswith("REPRODUCED"):
+                seen = 1
+                how = "reproduced by the scripted scenario `vharness finding %s`: %s" % (kf["scenario"], out3.strip()[:200])
         if seen:
             known.append({"reason": "%s signature=%s (%s)" % (kf.get("site", ""), kf["signature"], how), "signature": kf["signature"]})
     if fail and any(sig_match(kf["signature"], fail["reason"]) for kf in mine):
